@@ -286,6 +286,128 @@ pub fn run(args: &Args) -> i32 {
                 loc.sample(json!({"case": desc(), "result": r.as_ref().map(|_| "Ok").map_err(|e| e.clone())}));
             }
         });
+    // ---- the same chunk multisets delivered as PC banks to the event builder (the library's own caller of the
+    //      reassembly): a fault that must fail in the reassembly must not be masked by the way the caller
+    //      collects the chunks, and the outcome must not depend on the bank order
+    {
+        use crate::props::event::{build, pad_samples};
+        use crate::refmodel::sim::{pwb_payload, trg_packet, SIM_RUN};
+        let board = PWB_BOARDS[12].0;
+        let chans: Vec<(u16, Vec<i16>)> = [4u16, 30].iter().map(|&ro| (ro, pad_samples(ro, 131, 0))).collect();
+        let ev_payload = pwb_payload(board, 1, 131, &chans);
+        let l = ev_payload.len();
+        let mut escen: Vec<Scenario> = Vec::new();
+        for nchunks in 1..=6usize {
+            let s = l.div_ceil(nchunks);
+            let n = l.div_ceil(s);
+            let mut sizes = vec![s; n];
+            sizes[n - 1] = l - s * (n - 1);
+            let mut faults = vec![Fault::None, Fault::ShiftIds];
+            for i in 0..n {
+                faults.extend([Fault::Drop(i), Fault::Dup(i), Fault::ForeignBoard(i), Fault::ForeignChip(i), Fault::ToggleEom(i), Fault::Relabel(i, n)]);
+                if i + 1 < n {
+                    faults.extend([Fault::Resize(i, 1), Fault::Resize(i, -1)]);
+                }
+                for j in 0..n {
+                    if j != i {
+                        faults.extend([Fault::DropDup(i, j), Fault::Relabel(i, j)]);
+                    }
+                }
+            }
+            for f in faults {
+                let mut sz = sizes.clone();
+                if let Fault::Resize(i, d) = f {
+                    let (a, b) = (sz[i] as i64 + d, sz[n - 1] as i64 - d);
+                    if a < 1 || b < 1 {
+                        continue;
+                    }
+                    sz[i] = a as usize;
+                    sz[n - 1] = b as usize;
+                }
+                let m = match f {
+                    Fault::Drop(_) => n - 1,
+                    Fault::Dup(_) => n + 1,
+                    _ => n,
+                };
+                let all = m <= max_all;
+                escen.push(Scenario { payload: 0, sizes: sz, fault: f, orders: if all { factorial(m) } else { limited_orders(m) }, all_orders: all });
+            }
+        }
+        let mut eprefix = Vec::with_capacity(escen.len());
+        let mut etot = 0u64;
+        for s in &escen {
+            eprefix.push(etot);
+            etot += s.orders;
+        }
+        rep.cov("event_level_scenarios", json!(escen.len()));
+        rep.run("through-event-builder", etot, 120, false,
+            "a 2-channel PWB message of the simulation run cut into 1..=6 chunks x the fault list x arrival orders, delivered as PCxx banks (plus a TRG bank) to MainEvent::try_from_banks: a chunk set that must fail to reassemble must make the event fail, the fault-free set must build, and Ok/Err and the pad signals must be the same for every order",
+            |idx, loc| {
+                let si = match eprefix.binary_search(&idx) {
+                    Ok(i) => i,
+                    Err(i) => i - 1,
+                };
+                let sc = &escen[si];
+                let k = idx - eprefix[si];
+                let chunks = build_chunks(&ev_payload, &sc.sizes, sc.fault);
+                let ord = order_of(chunks.len(), k, sc.all_orders);
+                let name_of = |c: &Vec<u8>| {
+                    let id = u32::from_le_bytes(c[0..4].try_into().unwrap());
+                    format!("PC{}", PWB_BOARDS.iter().find(|b| b.2 == id).unwrap().0)
+                };
+                let mk = |order: &[usize]| -> Vec<(String, Vec<u8>)> {
+                    let mut b = vec![("ATAT".to_string(), trg_packet(3))];
+                    b.extend(order.iter().map(|&i| (name_of(&chunks[i]), chunks[i].clone())));
+                    b
+                };
+                let desc = || json!({"chunk_sizes": sc.sizes, "fault": format!("{:?}", sc.fault), "order": ord});
+                let pads = |banks: &Vec<(String, Vec<u8>)>| -> Result<Result<u64, String>, String> {
+                    Ok(match build(SIM_RUN, banks)? {
+                        Err(e) => Err(e),
+                        Ok(ev) => Ok(hash64(&ev.verif_pad_signals().iter().flatten().map(|s| s.as_ref().map(|v| v.iter().map(|x| x.to_bits()).collect::<Vec<u64>>())).collect::<Vec<_>>())),
+                    })
+                };
+                let h = hash64(&("ev", si, k));
+                let r = match pads(&mk(&ord)) {
+                    Ok(r) => r,
+                    Err(p) => {
+                        loc.note(h, true, "panic");
+                        loc.violation(format!("panic:event:{}", panic_site(&p)), json!({"case": desc(), "panic": p}));
+                        return;
+                    }
+                };
+                loc.note(h, chunks.len() >= 2, if r.is_ok() { "event-ok" } else { "event-err" });
+                let sizes_equal = sc.sizes.len() < 3 || sc.sizes[..sc.sizes.len() - 1].windows(2).all(|w| w[0] == w[1]);
+                let must_fail = match sc.fault {
+                    Fault::None => false,
+                    Fault::Resize(..) => !sizes_equal,
+                    // the event builder groups chunks by (board, chip): with a single chunk there is nothing to mix
+                    Fault::ForeignBoard(_) | Fault::ForeignChip(_) => sc.sizes.len() >= 2,
+                    _ => true,
+                };
+                // (dropping the only chunk leaves an event without pad data, which is fine)
+                if must_fail && !chunks.is_empty() && r.is_ok() {
+                    loc.violation(format!("event:chunk-fault-accepted:{}", fault_kind(sc.fault)), json!({"case": desc()}));
+                }
+                if sc.fault == Fault::None && r.is_err() {
+                    loc.violation("event:fault-free-message-rejected", json!({"case": desc(), "error": r.clone().err()}));
+                }
+                if k != 0 {
+                    let id: Vec<usize> = (0..chunks.len()).collect();
+                    match pads(&mk(&id)) {
+                        Ok(r0) => {
+                            if r0.is_ok() != r.is_ok() || (r.is_ok() && r0 != r) {
+                                loc.violation("event:chunk-order-dependent", json!({"case": desc(), "this_order": r.as_ref().map(|_| "Ok").map_err(|e| e.clone()), "identity_order": r0.as_ref().map(|_| "Ok").map_err(|e| e.clone())}));
+                            }
+                        }
+                        Err(p) => loc.violation(format!("panic:event:{}", panic_site(&p)), json!({"case": desc(), "panic": p})),
+                    }
+                }
+                if loc.want_sample() {
+                    loc.sample(json!({"case": desc(), "event": r.as_ref().map(|_| "Ok").map_err(|e| e.clone())}));
+                }
+            });
+    }
     rep.finish()
 }
 
